@@ -362,7 +362,11 @@ type holdCtl struct {
 	release     chan struct{}
 	after       chan hsms.ConnState
 	commitDelay atomic.Int64 // nanoseconds slept before every CommitSelected
+	relOnce     sync.Once
 }
+
+// Release lets a parked TCPUp proceed (idempotent).
+func (h *holdCtl) Release() { h.relOnce.Do(func() { close(h.release) }) }
 
 func newHold() *holdCtl {
 	return &holdCtl{held: make(chan struct{}, 4), release: make(chan struct{}), after: make(chan hsms.ConnState, 4)}
